@@ -293,6 +293,14 @@ func zzStreamPeerBytes(shape int, m byte) []byte {
 		return append(append([]byte("HTTP/1.1 200 OK\r\nConnection: close\r\nContent-Length: 2\r\n\r\nr"), m))
 	case 4:
 		return append(append([]byte("HTTP/1.1 200 OK\r\nTransfer-Encoding: chunked\r\n\r\n2\r\nr"), m), "\r\n0\r\n\r\n"...)
+	case 5:
+		// a body larger than the streaming prefetch (8 KiB), cut short: the peer closes after
+		// 8500 of the 9000 bytes it announced
+		b := []byte("HTTP/1.1 200 OK\r\nContent-Length: 9000\r\n\r\n")
+		for i := 0; i < 8500; i++ {
+			b = append(b, m)
+		}
+		return b
 	}
 	return nil
 }
@@ -334,16 +342,18 @@ func ZZ_C10_H3() {
 	_ = pending
 	n := zz.Range("calls", 1, zz.Param("M", 3))
 	invOK, respOK := true, true
-	var open []*protocol.Response // responses whose stream the caller has not closed yet
+	var open []*protocol.Response  // responses whose stream the caller has not closed yet
+	gone := map[*zz.NetConn]bool{} // connections on which the peer has hung up in mid-response
+	truncOK := true
 	for i := 0; i < n; i++ {
-		shape := zz.Choose("shape", 5)
+		shape := zz.Choose("shape", zz.Param("SHAPES", 5))
 		marker := byte('0' + i)
 		reply := zzStreamPeerBytes(shape, marker)
 		// the peer answers on whichever connection the request arrives: feed every open
 		// connection that has no unread input, and script the next dial the same way
 		fed := []*zz.NetConn{}
 		for _, nc := range d.conns {
-			if nc.Closed == 0 && nc.Pos == len(nc.In) {
+			if nc.Closed == 0 && nc.Pos == len(nc.In) && !gone[nc] {
 				nc.In = append(nc.In, reply...)
 				fed = append(fed, nc)
 			}
@@ -363,6 +373,18 @@ func ZZ_C10_H3() {
 			}
 		}
 		_ = ndials
+		if shape == 5 {
+			// the connection that carried this request is the one whose input is used up
+			for _, nc := range d.conns {
+				tail := nc.Out
+				if len(tail) > 60 {
+					tail = tail[len(tail)-60:]
+				}
+				if len(nc.In) > 0 && bytes.Contains(tail, []byte("/"+string([]byte{marker})+" HTTP")) {
+					gone[nc] = true
+				}
+			}
+		}
 		if err != nil {
 			// only legitimate failure here: no free connection within the wait timeout
 			zz.Cover("no-free-connection", true)
@@ -375,6 +397,12 @@ func ZZ_C10_H3() {
 				if v := resp.Header.Peek("X-M"); len(v) == 1 {
 					got = v[0]
 				}
+			} else if shape == 5 {
+				// cut-short body: some callers read it (and get an error), some do not
+				if zz.Choose("readBody", 2) == 1 {
+					resp.BodyE() //nolint:errcheck
+				}
+				got = marker
 			} else if zz.Choose("readBody", 2) == 1 || !resp.IsBodyStream() {
 				b, _ := resp.BodyE()
 				if len(b) == 2 {
@@ -406,11 +434,18 @@ func ZZ_C10_H3() {
 	for _, r := range open {
 		r.CloseBodyStream() //nolint:errcheck
 	}
+	// a connection on which the peer hung up in mid-response is closed, never kept for reuse
+	for nc := range gone {
+		if nc.Closed == 0 {
+			truncOK = false
+		}
+	}
 	zz.Cover("reached-assert", true)
 	zz.Cover("connection-reused", len(d.conns) < n)
 	zz.Assert("pool-invariant-after-every-call", invOK)
 	zz.Assert("response-belongs-to-the-callers-request", respOK)
 	zz.Assert("pool-invariant-at-the-end", zzPoolInvariant(c, d, maxConns))
+	zz.Assert("connection-with-a-cut-short-response-is-closed", truncOK)
 	zz.Assert("all-open-connections-idle-at-the-end", len(c.conns) == c.connsCount)
 	// (WantConnectionCount itself dereferences a nil queue on a client that never waited - an
 	// incidental observation outside C10, see DESIGN.md - so the queue is inspected directly)
